@@ -464,7 +464,10 @@ class HTTPChannel(wasyncore.dispatcher):
             else:
                 task.close_on_finish = True
 
-        if task.close_on_finish:
+        if task.close_on_finish or self.will_close:
+            # will_close: a flush failed with a socket error while this
+            # request was running, the connection is going away; do not
+            # start any request that is queued behind it
             with self.requests_lock:
                 self.close_when_flushed = True
 
